@@ -325,3 +325,85 @@ impl Area for ConcHist {
         ExecOut { outs, fails, model_lines: Some(model_lines) }
     }
 }
+
+// ===================================================================== creg
+/// concurrent register / unregister / gather on one Registry (C06, C14): each call is one critical
+/// section of the registry lock; the calls must behave as if executed one at a time
+pub struct ConcReg;
+
+fn creg_def(kind: &str, name: &str, help: &str, k: &str, val: u32) -> String {
+    let consts = if k.is_empty() { "-".to_string() } else { format!("6b:{}", hex(k)) };
+    if kind.ends_with("vec") { format!("kind={}/name={}/help={}/consts={}/vars=6c/children={}", kind, hex(name), hex(help), consts, if val == 0 { "none".to_string() } else { "61;62".to_string() }) }
+    else { format!("kind={}/name={}/help={}/consts={}/vars=-/val={}", kind, hex(name), hex(help), consts, f64_hex(val as f64)) }
+}
+
+fn creg_show(fams: &[proto::MetricFamily]) -> String { fams.iter().map(|f| format!("{}:{}", hex(f.name()), f.get_metric().len())).collect::<Vec<_>>().join("+") }
+fn creg_run_op(r: &Registry, colls: &[crate::areas::reg::AnyColl], op: &str) -> String { let (name, a) = op.split_once(':').unwrap_or((op, "")); match name {
+    "reg" => match r.register(colls[a.parse::<usize>().unwrap()].boxed()) { Ok(()) => "ok".into(), Err(e) => err_kind(&e) },
+    "unreg" => match r.unregister(colls[a.parse::<usize>().unwrap()].boxed()) { Ok(()) => "ok".into(), Err(e) => err_kind(&e) },
+    _ => creg_show(&r.gather()) } }
+
+impl Area for ConcReg {
+    fn corpus(&self) -> Vec<Vec<String>> {
+        vec![vec![format!("creg defs={}@{} prog=reg:0,gather|reg:1,gather sseed=3", creg_def("counter", "m", "h", "1", 1), creg_def("gauge", "m", "other help", "2", 2))],
+             vec![format!("creg defs={}@{}@{} prog=reg:0,unreg:0|reg:1|gather,reg:2,gather sseed=11", creg_def("counter", "m", "h", "1", 1), creg_def("counter", "m", "h", "1", 5), creg_def("histogram", "x", "h", "", 0))]]
+    }
+    fn gen(&self, rng: &mut Rng, _thorough: bool, _stats: &mut Stats) -> Vec<String> {
+        let nd = rng.range(2, 3);
+        let defs: Vec<String> = (0..nd).map(|_| { let kind = *rng.pick(&["counter", "gauge", "intcounter", "histogram", "countervec", "gaugevec"]);
+            let nm = *rng.pick(&["m", "m", "x"]); let hp = *rng.pick(&["h", "h", "help"]); let kv = *rng.pick(&["1", "2", ""]); creg_def(kind, nm, hp, kv, rng.below(3) as u32) }).collect();
+        let nt = rng.range(2, 3);
+        let prog: Vec<String> = (0..nt).map(|_| { let n = rng.range(1, 3); (0..n).map(|_| { let i = rng.below(nd);
+            match rng.below(10) { 0..=5 => format!("reg:{}", i), 6..=7 => format!("unreg:{}", i), _ => "gather".to_string() } }).collect::<Vec<_>>().join(",") }).collect();
+        vec![format!("creg defs={} prog={} sseed={}", defs.join("@"), prog.join("|"), rng.next() % 1_000_000)]
+    }
+    fn exec(&self, lines: &[String], stats: &mut Stats) -> ExecOut {
+        use crate::areas::reg::{build, AnyColl};
+        let mut outs = vec![]; let mut fails = vec![]; let mut model_lines = vec![];
+        let show = creg_show; let run_op = creg_run_op;
+        for line in lines {
+            let p: Vec<&str> = line.split(' ').collect();
+            let defs_txt = field(&p, "defs").unwrap(); let prog = parse_prog(field(&p, "prog").unwrap()); let sseed: u64 = field(&p, "sseed").unwrap().parse().unwrap();
+            let built: Vec<Option<crate::areas::reg::Def>> = defs_txt.split('@').map(|d| { let parts: Vec<&str> = d.split('/').collect(); build(&parts) }).collect();
+            if built.iter().any(|b| b.is_none()) { outs.push("bad-def".into()); model_lines.push(format!("creg defs={} prog={} trace=-", defs_txt, field(&p, "prog").unwrap())); continue; }
+            let colls: Vec<AnyColl> = built.iter().map(|b| b.as_ref().unwrap().coll.clone()).collect();
+            let kinds: Vec<String> = built.iter().map(|b| b.as_ref().unwrap().kind.clone()).collect();
+            let reg = Registry::new();
+            let bodies: Vec<Body> = prog.iter().map(|ops| { let ops = ops.clone(); let reg = reg.clone(); let colls = colls.clone();
+                Box::new(move |ctx: &sched::Ctx| { for (i, op) in ops.iter().enumerate() { ctx.mark(format!("call.{}.{}", i, op)); let r = run_op(&reg, &colls, op); ctx.mark(format!("ret.{}.{}", i, r)); } }) as Body }).collect();
+            let lock = reg.verif_lock_addr();
+            let mut rng = Rng::new(sseed); let sticky = *rng.pick(&[0usize, 50, 85]);
+            let o = sched::run(bodies, &mut rng, sticky, 0, 4000, None);
+            stats.hit("traces");
+            if o.stuck { fails.push(Failure { class: "stuck".into(), detail: line.clone() }); model_lines.push(format!("creg defs={} prog={} trace=-", defs_txt, field(&p, "prog").unwrap())); outs.push("stuck".into()); continue; }
+            // ---- oracle: some order of the calls consistent with real time, executed one at a time on a fresh registry, gives every result and the final content
+            let hist = history(&o.trace);
+            let fin = show(&reg.gather());
+            let replay = |ops: &Vec<String>| -> (Vec<String>, String) { let r = Registry::new(); let res: Vec<String> = ops.iter().map(|op| run_op(&r, &colls, op)).collect(); (res, show(&r.gather())) };
+            #[derive(Clone)] struct St { ops: Vec<String> }
+            let apply = |st: &St, h: &HOp| -> Option<St> { let mut ops = st.ops.clone(); ops.push(h.op.clone()); let (res, _) = replay(&ops); if res.last().unwrap() == &h.result { Some(St { ops }) } else { None } };
+            let accept = |st: &St| -> bool { replay(&st.ops).1 == fin };
+            if !linearizable(&hist, St { ops: vec![] }, &apply, &accept) { fails.push(Failure { class: "registry-not-linearizable".into(), detail: format!("no order consistent with real time, executed one call at a time, explains {:?} and the final content {} for {}", hist.iter().map(|h| format!("t{}:{}={}", h.tid, h.op, h.result)).collect::<Vec<_>>(), fin, line) }); }
+            // C14 / C06: collectors with different help texts under one name can never be registered together, so no family may hold
+            // samples of two such collectors (in particular not samples of different types)
+            let gathered = reg.gather();
+            for f in &gathered { let mut helps: std::collections::BTreeSet<String> = Default::default(); let mut tys: std::collections::BTreeSet<&str> = Default::default();
+                for m in f.get_metric() { let ty = if m.counter.is_some() { "counter" } else if m.gauge.is_some() { "gauge" } else { "histogram" }; tys.insert(ty);
+                    let k: String = m.get_label().iter().find(|l| l.name() == "k").map(|l| l.value().to_string()).unwrap_or_default();
+                    // the definitions this sample can come from: same name, same const value, same kind of value
+                    let cands: std::collections::BTreeSet<String> = (0..colls.len()).filter(|i| { let c = colls[*i].boxed(); let d = c.desc(); d[0].fq_name == f.name() && kinds[*i] == ty && d[0].const_label_pairs.iter().find(|l| l.name() == "k").map(|l| l.value().to_string()).unwrap_or_default() == k })
+                        .map(|i| colls[i].boxed().desc()[0].help.clone()).collect();
+                    if cands.len() == 1 { helps.extend(cands); } }
+                if helps.len() > 1 { fails.push(Failure { class: if tys.len() > 1 { "family-mixes-types".into() } else { "admission-wrong".into() }, detail: format!("collectors with different help texts {:?} are registered together under the name {} (sample types {:?}): {}", helps, f.name(), tys, line) }); } }
+            let _ = &kinds;
+            let concurrent = hist.iter().any(|a| hist.iter().any(|b| a.tid != b.tid && a.call < b.ret && b.call < a.ret));
+            stats.seen(&[line.clone()], concurrent);
+            // the trace sent to the model: the registry lock only (collectors' own atomics, read by gather, are not the registry's)
+            let tr: Vec<Rec> = o.trace.iter().filter(|r| match r { Rec::Op { addr, .. } => *addr == lock, _ => true }).cloned().collect();
+            let txt = trace_text(&tr, &mut |_| "lk".to_string());
+            model_lines.push(format!("creg defs={} prog={} trace={}", defs_txt, field(&p, "prog").unwrap(), txt));
+            outs.push(format!("ok final={}", fin));
+        }
+        ExecOut { outs, fails, model_lines: Some(model_lines) }
+    }
+}
